@@ -508,6 +508,14 @@ theorem value_format (d : Int) (hlo : -9223372036854775808 ≤ d) (hhi : d < 922
     simp only [signed, hr, if_true, Bool.false_eq_true, if_false]
     congr 1; omega
 
+/-- different durations have different texts -/
+theorem format_injective (d₁ d₂ : Int) (h₁ : -9223372036854775808 ≤ d₁ ∧ d₁ < 9223372036854775808)
+    (h₂ : -9223372036854775808 ≤ d₂ ∧ d₂ < 9223372036854775808) (h : format d₁ = format d₂) : d₁ = d₂ := by
+  have a := value_format d₁ h₁.1 h₁.2
+  have b := value_format d₂ h₂.1 h₂.2
+  rw [h, b] at a
+  exact (Option.some.inj a).symm
+
 /-! line-protocol printers -/
 def hexDigitC (n : UInt8) : Char := if n < 10 then Char.ofNat (48 + n.toNat) else Char.ofNat (87 + n.toNat)
 def toHexS (bs : Str) : String := String.ofList (bs.flatMap fun b => [hexDigitC (b / 16), hexDigitC (b % 16)])
